@@ -133,5 +133,31 @@ func webScenarios() []Scenario {
 		}
 		return ""
 	}})
+	// S3b: an assignment that is refused (a choice name with a value that is not true, an unknown name, a
+	// value of the wrong type) next to one that is accepted and a reader: the refused ones leave the option
+	// store as it was and usable - nobody waits for ever
+	for _, bad := range [][2]string{{"cum", "false"}, {"lines", "0"}, {"flat", "maybe"}, {"nosuchoption", "1"}, {"nodecount", "many"}, {"granularity", "cheese"}} {
+		bad := bad
+		out = append(out, Scenario{Name: "S3b/refused-assignment/" + bad[0] + "=" + bad[1], Setup: func() ([]func() string, func() string) {
+			verifrt.Quiet(func() { driver.VerifReset() })
+			return []func() string{
+					func() string { return fmt.Sprint(driver.VerifConfigure(bad[0], bad[1]) != nil) },
+					func() string { return fmt.Sprint(driver.VerifConfigure("nodecount", "7")) },
+					func() string { return fmt.Sprint(len(driver.VerifConfigState()) > 0) },
+				}, func() string {
+					e := driver.VerifConfigure("focus", "a")
+					s := driver.VerifConfigState()
+					return fmt.Sprint(e, strings.Contains(s, "focus=a;"), strings.Contains(s, "nodecount=7;"))
+				}
+		}, Accept: func(res []string, final string) string {
+			if res[0] != "true" {
+				return "the assignment " + bad[0] + "=" + bad[1] + " was not refused"
+			}
+			if res[1] != "<nil>" || final != "<nil> true true" {
+				return "after the refused assignment: configure(nodecount)=" + res[1] + ", then configure(focus)/state: " + final
+			}
+			return ""
+		}})
+	}
 	return out
 }
